@@ -1,6 +1,6 @@
 // C10 driver: programs (chains of views chosen at run time from TLC-generated behaviours) over dynamic arrays.
 // Each program is executed lazily (element access through the composed view), eagerly with the row-major and the
-// column-major result resolver, into a caller-supplied output, and staged (inner view evaluated to a concrete array
+// column-major result resolver, into a caller-supplied output (of the right shape and of a wrong one), and staged (inner view evaluated to a concrete array
 // first, outer operations applied to it).  Operations are dispatched in continuation-passing style so that the
 // composed view type is built by the compiler for every program of the alphabet up to depth MAXD.
 #include "verif/program.hpp"
@@ -14,6 +14,20 @@ template <class V> static vj::value finish(const std::string& variant, const V& 
         auto shp = shape_vec(nm::shape(v)); dyn_t<long> out; std::vector<size_t> s(shp.begin(), shp.end()); out.resize(s);
         size_t n = 1; for (auto x : s) n *= x; for (size_t p = 0; p < n; p++) out.data()[p] = -424242;
         na::eval(v, nm::None, out);
+        return project(out);
+    }
+    if (variant == "into_wrong") {
+        // caller-supplied output with the view's dimension and element count but other extents (the reversed shape): eval either
+        // refuses it (output untouched - then the view itself is reported) or makes it the view; an output that was modified is
+        // reported as it is and has to be the view (shape and every element)
+        auto shp = shape_vec(nm::shape(v)); std::vector<long> rv(shp.rbegin(), shp.rend());
+        if (rv == shp) return crash_res("driver:unsupported");
+        dyn_t<long> out; std::vector<size_t> s(rv.begin(), rv.end()); out.resize(s);
+        size_t n = 1; for (auto x : s) n *= x; for (size_t p = 0; p < n; p++) out.data()[p] = -424242;
+        na::eval(v, nm::None, out);
+        bool untouched = shape_vec(nm::shape(out)) == rv;
+        for (size_t p = 0; untouched && p < n; p++) if (out.data()[p] != -424242) untouched = false;
+        if (untouched) return project(v);
         return project(out);
     }
     return crash_res("driver:variant");
